@@ -54,12 +54,15 @@ def c18(run):
     run.min_instances('R-ALLOC-NULL', 150)
     from rules import r_ownpdu
     r_ownpdu.run(run, P)
+    from rules import r_shallow
+    r_shallow.run(run, P)
     run.assumptions = ASSUME_COMMON + ["every allocation funnels through coap_malloc_type/coap_realloc_type/malloc/calloc/realloc/strdup",
                                        "'the next operation succeeds' is NOT decided"]
     return run.finish(
         "Library-wide: every value returned by a computed may-fail constructor is NULL-tested on every path before it is dereferenced or "
         "handed to a callee that dereferences it (R-ALLOC-NULL); PDUs are consumed exactly once on every path including error paths "
-        "(R-OWN-PDU). Necessary for 'allocation failure is survived without crash or leak'.")
+        "(R-OWN-PDU); after a shallow struct copy no destructor that frees a still-aliased owned field of the copy is called before that field was "
+        "given its own buffer (R-SHALLOW-ALIAS). Necessary for 'allocation failure is survived without crash or leak'.")
 
 
 def c12(run):
@@ -284,6 +287,7 @@ def c19(run):
     from rules import r_route
     P = run.prog('rel')
     r_route.run(run, P)
+    r_route.run_psk(run, P)
     run.min_instances('R-ROUTE', 8)
     run.assumptions = ASSUME_COMMON + ["credential acceptance happens inside GnuTLS (gnutls_handshake returns GNUTLS_E_SUCCESS only for credentials both sides accept)",
                                        "handshake schedules and NACK-once for queued requests are NOT decided"]
@@ -291,7 +295,9 @@ def c19(run):
         "Routing/gating decided structurally: cleartext datagram processing (coap_handle_dgram) is entered only for UDP sessions or from the TLS "
         "back end inside 'established' with a positive record-read result; the established flag is set only on the GNUTLS_E_SUCCESS arm of "
         "gnutls_handshake's result and do_gnutls_handshake returns 1 only there; coap_session_connected and record I/O in the back end happen only "
-        "after that; coap_send_pdu transmits only with session->state == ESTABLISHED (R-ROUTE).")
+        "after that; coap_send_pdu transmits only with session->state == ESTABLISHED (R-ROUTE). Credential verdict: in the PSK callbacks the result of "
+        "the application's identity / hint validation callback is never replaced before it is acted on, and a success return is only reached with it "
+        "known non-NULL (R-PSK-VERDICT).")
 
 
 def c14(run):
@@ -356,4 +362,28 @@ PROPS = {
     'C18': c18,
     'C13': c13,
     'C17': c17,
+}
+
+
+# thorough tier: additional build configurations (core/facts.CFGS) in which the property's anchors exist.  Each costs one
+# cmake configure + one extraction per mode.  Configurations that compile the property's code out are not listed.
+VARIANTS = {
+    'C01': ['smallstack', 'noqblock'],
+    'C02': ['noepoll', 'noqblock', 'smallstack', 'serveronly'],
+    'C03': ['smallstack', 'noqblock'],
+    'C04': ['smallstack', 'noqblock'],
+    'C05': ['noepoll', 'smallstack'],
+    'C06': ['noepoll', 'noqblock', 'serveronly', 'clientonly'],
+    'C08': ['noepoll', 'noqblock', 'nooscore', 'serveronly', 'clientonly'],
+    'C09': ['noqblock', 'smallstack', 'serveronly'],
+    'C10': ['noepoll', 'noqblock', 'nooscore', 'serveronly'],
+    'C12': ['noepoll', 'noqblock', 'nooscore', 'serveronly'],
+    'C13': ['noepoll', 'noqblock', 'reccheck', 'smallstack', 'nooscore', 'notcp'],
+    'C14': ['smallstack', 'noqblock'],
+    'C15': ['smallstack', 'noqblock'],
+    'C16': ['smallstack', 'serveronly', 'clientonly'],
+    'C17': ['noepoll', 'smallstack'],
+    'C18': ['noepoll', 'noqblock', 'smallstack', 'nooscore', 'notcp', 'serveronly', 'clientonly'],
+    'C19': ['noepoll', 'smallstack'],
+    'C20': ['smallstack', 'serveronly'],
 }
